@@ -78,6 +78,10 @@ def manifest(draw):
         e["gen"] = not (e["depfile"] or e["restat"] or e["rsp"]) and draw(st.integers(0, 5)) == 0
         # an implicit dependency on a phony alias of earlier outputs (`build al: phony o1 o2`, `... | al`)
         e["alias"] = draw(st.sampled_from(alias_pool)) if alias_pool and draw(st.integers(0, 2)) == 0 else None
+        # an implicit input the command is declared to depend on but does not read (like a tool or a config file):
+        # it is not on the command line, yet a change of it has to re-run the command
+        e["unread"] = [draw(st.sampled_from(sources))] if draw(st.integers(0, 5)) == 0 else []
+        e["unread"] = [u for u in e["unread"] if u not in ins + imp]
         edges.append(e)
         avail += outs
         if draw(st.integers(0, 4)) == 0:
@@ -105,7 +109,7 @@ def case(draw):
     extra = [0]
     for _ in range(draw(st.integers(1, 6))):
         k = draw(st.sampled_from(["edit", "edit", "edit", "delete-out", "salt", "add-edge", "remove-edge", "rewire",
-                                  "drop-input", "rsp-salt", "fault", "build", "build"]))
+                                  "drop-input", "rsp-salt", "add-unread", "fault", "build", "build"]))
         outs = [o for e in cur["edges"] for o in e["outs"]]
         if k == "edit":
             s = draw(st.sampled_from(srcs))
@@ -124,7 +128,7 @@ def case(draw):
             pool = plain(srcs) + outs
             ins = draw(st.permutations(pool))[:draw(st.integers(0, min(2, len(pool))))]
             e = {"name": "X%d" % extra[0], "ins": ins, "implicit": [], "orderonly": [], "outs": ["x%d_0" % extra[0]],
-                 "salt": "x", "depfile": False, "restat": False, "pool": False, "rsp": False}
+                 "salt": "x", "depfile": False, "restat": False, "pool": False, "rsp": False, "unread": []}
             cur["edges"].append(e)
             ops.append({"op": "manifest", "edit": {"k": "add", "edge": e}})
         elif k == "remove-edge" and len(cur["edges"]) > 1:
@@ -145,6 +149,12 @@ def case(draw):
                 else:
                     e["ins"] = e["ins"] + [new]
                 ops.append({"op": "manifest", "edit": {"k": "rewire", "edge": e["name"], "ins": list(e["ins"])}})
+        elif k == "add-unread" and [e for e in cur["edges"] if not e.get("gen")]:
+            e = draw(st.sampled_from([e for e in cur["edges"] if not e.get("gen")]))
+            cand = [x for x in plain(srcs) if x not in e["ins"] + e["implicit"] + e.get("unread", [])]
+            if cand:
+                e["unread"] = e.get("unread", []) + [draw(st.sampled_from(cand))]
+                ops.append({"op": "manifest", "edit": {"k": "unread", "edge": e["name"], "unread": list(e["unread"])}})
         elif k == "rsp-salt" and [e for e in cur["edges"] if e["rsp"] and not e["depfile"] and not e["restat"] and len(e["outs"]) == 1]:
             # only the CONTENT of the response file changes (the command line proper stays the same)
             e = draw(st.sampled_from([e for e in cur["edges"] if e["rsp"] and not e["depfile"] and not e["restat"] and len(e["outs"]) == 1]))
@@ -208,8 +218,9 @@ def write_manifest(ws, m):
         rule = ("run_dep" if e["depfile"] else "run_restat" if e["restat"] else "run_rsp" if e["rsp"]
                 else "run_gen" if e.get("gen") else "run")
         line = "build %s: %s %s" % (" ".join(e["outs"]), rule, " ".join(e["ins"]))
-        if e["implicit"] or e.get("alias"):
-            line += " | " + " ".join(e["implicit"] + ([e["alias"]] if e.get("alias") else []))
+        extra_imp = e["implicit"] + e.get("unread", []) + ([e["alias"]] if e.get("alias") else [])
+        if extra_imp:
+            line += " | " + " ".join(extra_imp)
         if e["orderonly"]:
             line += " || " + " ".join(e["orderonly"])
         L.append(line)
@@ -245,7 +256,7 @@ def ninja_build(ws, jobs, db):
 
 def default_roots(m):
     # no default statement: ninja builds every output that is not an input of another edge
-    consumed = {i for e in m["edges"] for i in e["ins"] + e["implicit"] + e["orderonly"] + ([e["alias"]] if e.get("alias") else [])} | \
+    consumed = {i for e in m["edges"] for i in e["ins"] + e["implicit"] + e["orderonly"] + e.get("unread", []) + ([e["alias"]] if e.get("alias") else [])} | \
                {i for a in m["aliases"] for i in a["ins"]}
     roots = [o for e in m["edges"] for o in e["outs"] if o not in consumed] + [a["name"] for a in m["aliases"]
                                                                               if a["name"] not in consumed]
@@ -257,6 +268,10 @@ def apply_edit(m, ed):
         for e in m["edges"]:
             if e["name"] == ed["edge"]:
                 e["salt"] = ed["salt"]
+    elif ed["k"] == "unread":
+        for e in m["edges"]:
+            if e["name"] == ed["edge"]:
+                e["unread"] = list(ed["unread"])
     elif ed["k"] == "rspsalt":
         for e in m["edges"]:
             if e["name"] == ed["edge"]:
@@ -470,10 +485,11 @@ def must_may(m, change, discovered):
     """Commands that must / may start after the single change."""
     kind, what = change
     must = set()
+    may_only = set()
     edges = m["edges"]
     if kind == "edit":
         for e in edges:
-            if what in e["ins"] + e["implicit"] or what in discovered.get(e["name"], []):
+            if what in e["ins"] + e["implicit"] + e.get("unread", []) or what in discovered.get(e["name"], []):
                 must.add(e["name"])
     elif kind == "delete":
         for e in edges:
@@ -483,12 +499,14 @@ def must_may(m, change, discovered):
         ed = what
         if ed["k"] in ("salt", "rewire", "rspsalt"):
             must.add(ed["edge"])
+        elif ed["k"] == "unread":
+            may_only.add(ed["edge"])      # (Ninja re-runs only if the new input is newer: allowed, not required)
         elif ed["k"] == "add":
             must.add(ed["edge"]["name"])
         elif ed["k"] == "remove":
             # consumers of the removed edge's outputs now read them as plain files: Ninja sees no change
             pass
-    may = set(must)
+    may = set(must) | may_only
     changed = True
     while changed:
         changed = False
